@@ -13,7 +13,7 @@ EXPLANATION = ("C05: tr2rpy (3 orders + aliases), tr2eul (flip on/off), tr2angve
 BOUNDS = ("R = product of three axis rotations with unbounded angle atoms (surjective onto SO(3)); axis-angle: D-grid axes with a "
           "symbolic angle in [0, pi]; planar: angle atom + |t|<=1e6; tolerance 1e-6 on threshold paths")
 TIMEOUT = {'quick': 8, 'thorough': 120}
-WALL_BUDGET = {'quick': 400, 'thorough': 3000}
+WALL_BUDGET = {'quick': 400, 'thorough': 1800}
 ASSUMPTIONS = ["inside the singular band 0 < 1-|R31| < 10 eps the claim is the tolerance inequality (1e-6); reported inconclusive when z3 does not decide it"]
 
 
